@@ -117,7 +117,16 @@ def _run_summary(cfg, workers=1):
             "reason": tr.end["reason"], "cost": float(tr.result.label_assignment_cost), "rounds": rounds}
 
 
-def op_e2e(cfg, workers=0, with_rounds=True):
+def op_e2e(cfg, workers=0, with_rounds=True, threads=None):
+    if threads:
+        # the same run once per Numba thread-team size (JIT mode): digest of every result field
+        import numba
+        out = {}
+        for n in threads:
+            numba.set_num_threads(int(n))
+            r = _run_summary(cfg, workers)
+            out[str(n)] = {"ok": r["ok"], "digest": r.get("digest"), "exc": r.get("exc"), "cost": r.get("cost")}
+        return {"by_threads": out}
     s = _run_summary(cfg, workers)
     if not with_rounds and s.get("ok"):
         s.pop("rounds")
